@@ -1,7 +1,8 @@
 class SeismicZfpVersion:
     def __init__(self, arg):
         if isinstance(arg, str):
-            version_numbers_tuple = tuple(part for part in arg.replace('rc', '.rc').split("."))
+            # Local version label (after '+', e.g. a dirty checkout) is not part of the release number
+            version_numbers_tuple = tuple(part for part in arg.split('+')[0].replace('rc', '.rc').split("."))
             self.major = int(version_numbers_tuple[0])
             self.minor = int(version_numbers_tuple[1])
             self.patch = int(version_numbers_tuple[2])
